@@ -406,6 +406,11 @@ func (ctx drawContext) drawBackground(bg *bo.Background, clipBox bool, bleed bo.
 		return
 	}
 
+	if clipBox && len(bg.Layers[len(bg.Layers)-1].ClippedBoxes) == 0 {
+		// the clipping area is empty : nothing would be painted
+		return
+	}
+
 	ctx.dst.OnNewStack(func() {
 		if clipBox {
 			for _, box := range bg.Layers[len(bg.Layers)-1].ClippedBoxes {
@@ -1102,6 +1107,10 @@ func clipBorderSegment(context backend.Canvas, style pr.String, width fl, side p
 				dash /= denom
 			}
 			maxI := int(math.Round(float64(length / dash)))
+			if maxI <= 0 {
+				// no dash at all: clip to an empty (but defined) path
+				context.Rectangle(0, 0, 0, 0)
+			}
 			for i_ := 0; i_ < maxI; i_ += 2 {
 				i := fl(i_)
 				switch side {
